@@ -1562,7 +1562,9 @@ func runRelayHistory(t *testing.T, rng *verifsim.RNG, prop string, nEvents int) 
 		w.evTick(time.Duration(1001+2*rng.Intn(1000)) * time.Nanosecond)
 		w.freshNonce()
 		ports := []int{49152, 49153, 49154, 49155}
-		if rng.Chance(40) {
+		if prop == "C15" && rng.Chance(20) {
+			w.template(7, ports) // an allocation owning several channels and permissions ends, by each cause
+		} else if rng.Chance(40) {
 			w.template(rng.Intn(10), ports)
 		}
 		for i := 0; i < nEvents; i++ {
